@@ -495,7 +495,10 @@ def r3_result(text, log, **kw):
 
 
 # --- R4i: `x.into_iter().for_each(|p| B)` -> `for p in x { B }` -----------------------------------------------------
-def r4_into_iter_for_each(text, log, **kw):
+def r4_into_iter_for_each(text, log, bind=None, **kw):
+    """bind=<name>: the receiver expression (e.g. `self.f()?`) is first bound to a local of that name — only where the whole
+    `recv.into_iter().for_each(..)` is a statement of its own (evaluation order unchanged: the receiver is evaluated once,
+    before the first iteration, exactly as `into_iter()` does)"""
     def step(t):
         s = Src(t)
         for p in _find_method(s, "for_each"):
@@ -512,6 +515,10 @@ def r4_into_iter_for_each(text, log, **kw):
             d = p - 4
             r = receiver_start(s, d)
             recv = s.slice(r, d - 1)
+            if bind:
+                if r > 0 and s.txt(r - 1) not in (";", "{", "}"):
+                    raise Undecided("R4i bind=: the for_each is not a statement of its own")
+                return _edit(t, s, r, s.closer(p + 2), "let %s = %s;\nfor %s in %s {\n%s\n}" % (bind, recv, pat, bind, inner))
             return _edit(t, s, r, s.closer(p + 2), "for %s in %s {\n%s\n}" % (pat, recv, inner))
         return None
     return _fix(text, step, log, "R4")
